@@ -79,8 +79,11 @@ func TestScore(t *testing.T) {
 		Prop: "C11", Name: "score", N: 2500,
 		Gen: func(t *rapid.T) scoreCase {
 			n := rapid.IntRange(8, 200).Draw(t, "len")
-			if h.Pick(t, "lk", 3, 1) == 1 {
+			switch h.Pick(t, "lk", 6, 2, 1) {
+			case 1:
 				n = h.OneOf(t, "lc", 8, 9, 40, 72)
+			case 2:
+				n = h.OneOf(t, "ll", 136, 137, 264, 1032, 5000)
 			}
 			return scoreCase{h.BytesN(t, "msg", n)}
 		},
@@ -140,7 +143,13 @@ func checkMine(c mineCase) (h.Info, error) {
 	ctx, cancel := context.WithTimeout(context.Background(), 120*time.Second)
 	defer cancel()
 	data := append([]byte{}, c.Data...)
-	nonce, err := pow.New(c.Workers).Mine(ctx, data, target)
+	// Worker objects are reused from case to case (no state may survive a call)
+	w, ok := workers[c.Workers]
+	if !ok {
+		w = pow.New(c.Workers)
+		workers[c.Workers] = w
+	}
+	nonce, err := w.Mine(ctx, data, target)
 	if err != nil {
 		return info, fmt.Errorf("Mine(data=%x, target=%v [%s], workers=%d): %v", []byte(c.Data), target, c.Class, c.Workers, err)
 	}
@@ -149,6 +158,8 @@ func checkMine(c mineCase) (h.Info, error) {
 	}
 	return info, judge(c, nonce)
 }
+
+var workers = map[int]*pow.Worker{}
 
 // boundary targets: fl(3^k/len) and its neighbours
 func boundary(k int, ell int) float64 {
@@ -159,8 +170,11 @@ func boundary(k int, ell int) float64 {
 
 func genMine(t *rapid.T) mineCase {
 	c := mineCase{Data: h.Bytes(t, "data", 0, 64), Workers: h.OneOf(t, "workers", 1, 1, 2, 3, 4, 8, 16)}
-	if h.Pick(t, "dk", 4, 1) == 1 {
+	switch h.Pick(t, "dk", 8, 2, 1) {
+	case 1:
 		c.Data = h.BytesN(t, "data1", h.OneOf(t, "dl", 0, 1, 19, 64))
+	case 2: // long data: several BLAKE2b blocks
+		c.Data = h.BytesN(t, "datalong", h.OneOf(t, "dll", 120, 128, 129, 1000, 4096))
 	}
 	ell := len(c.Data) + 8
 	k := rapid.IntRange(0, 7).Draw(t, "k")
